@@ -58,6 +58,10 @@ func c17Check(w *mon.W, keys []string, maxSize int) bool {
 	in := append([]string(nil), keys...)
 	keys, guardK := argStrs(w, keys)
 	L, B := sigbits.ShardByPrefix(keys, int32(maxSize))
+	if overlapI32(L, B) {
+		w.Fail("Shard/the-two-results-share-memory", mon.D{"nkeys": len(in), "maxSize": maxSize, "len_L": len(L), "cap_L": cap(L), "len_B": len(B), "cap_B": cap(B)})
+		return false
+	}
 	if !guardK() {
 		w.Fail("Shard/wrote-outside-len-of-argument", mon.D{"nkeys": len(in), "maxSize": maxSize})
 		return false
